@@ -51,6 +51,11 @@ func checkC11(c *Ctx) {
 		if f.Pkg != nil && f.Pkg.Pkg.Path() == pkgTopics && rn == "Manager" {
 			return true
 		}
+		// a method of a connection's service object: before the credentials are accepted this connection has no
+		// service yet, so the receiver is another client's connection (take-over, kick, a delivery)
+		if f.Pkg != nil && f.Pkg.Pkg.Path() == pkgService && rn == "service" {
+			return true
+		}
 		return false
 	}
 	effects := nodeM(isEffect)
